@@ -351,7 +351,7 @@ def makepareto_numpy(
 
     if not to_pareto:
         n = np.zeros(mappings.shape[0], dtype=bool)
-        n[0] = True
+        n[:1] = True
         return n
 
     data = np.concatenate([x.reshape(-1, 1) for x in to_pareto], axis=1)
